@@ -261,6 +261,13 @@ func init() {
 			id := ex.newInput(ex.strArg(args[0]), BV(64))
 			return ex.privPtr(ex.newPriv(ex.strArg(args[0]), id))
 		},
+		// vNegPrivKey(k): the key n - k (public key -P: same x coordinate)
+		"vNegPrivKey": func(ex *Exec, g *Goroutine, cs *callSite, args []Value) Value {
+			k := ex.asPriv(args[0])
+			n := ex.newPriv(k.name+"!neg", nil)
+			n.negOf = k
+			return ex.privPtr(n)
+		},
 		"vSamePrivKey": func(ex *Exec, g *Goroutine, cs *callSite, args []Value) Value {
 			a, b := ex.asPriv(args[0]), ex.asPriv(args[1])
 			return ex.C.Eq(a.id, b.id)
